@@ -269,6 +269,12 @@ type matchedEntry struct {
 }
 
 func matchEntries(before, after []Entry) (ml []matchedEntry) {
+	ml = make([]matchedEntry, 0, len(after))
+
+	// First pair every HEAD rule with an identical rule from before.
+	// This must be done for all rules before we fall back to matching by name,
+	// otherwise a new rule that shares its name with an existing rule could claim
+	// the old version of that rule, and the untouched rule would look like a new one.
 	for _, a := range after {
 		slog.Debug(
 			"Matching HEAD rule",
@@ -279,16 +285,13 @@ func matchEntries(before, after []Entry) (ml []matchedEntry) {
 
 		m := matchedEntry{after: a, hasAfter: true} // nolint: exhaustruct
 		beforeSwap := make([]Entry, 0, len(before))
-		var matches []Entry
-		var matched bool
 
 		for _, b := range before {
-			if !matched && a.Rule.Name() != "" && a.Rule.IsIdentical(b.Rule) {
+			if !m.hasBefore && a.Rule.Name() != "" && a.Rule.IsIdentical(b.Rule) {
 				m.before = b
 				m.hasBefore = true
 				m.isIdentical = isEntryIdentical(b, a)
 				m.wasMoved = a.Path.Name != b.Path.Name
-				matched = true
 				slog.Debug(
 					"Found identical rule on before & after",
 					slog.Bool("identical", m.isIdentical),
@@ -300,25 +303,30 @@ func matchEntries(before, after []Entry) (ml []matchedEntry) {
 		}
 		before = beforeSwap
 
-		if !matched {
-			before, matches = findRulesByName(before, a.Rule.Name(), a.Rule.Type())
-			switch len(matches) {
-			case 0:
-			case 1:
-				m.before = matches[0]
-				m.hasBefore = true
-				m.wasMoved = a.Path.Name != matches[0].Path.Name
-				slog.Debug("Found rule with same name on before & after")
-			default:
-				slog.Debug(
-					"Found multiple rules with same name on before & after",
-					slog.Int("matches", len(matches)),
-				)
-				before = append(before, matches...)
-			}
+		ml = append(ml, m)
+	}
+
+	for i := range ml {
+		if ml[i].hasBefore {
+			continue
 		}
 
-		ml = append(ml, m)
+		var matches []Entry
+		before, matches = findRulesByName(before, ml[i].after.Rule.Name(), ml[i].after.Rule.Type())
+		switch len(matches) {
+		case 0:
+		case 1:
+			ml[i].before = matches[0]
+			ml[i].hasBefore = true
+			ml[i].wasMoved = ml[i].after.Path.Name != matches[0].Path.Name
+			slog.Debug("Found rule with same name on before & after")
+		default:
+			slog.Debug(
+				"Found multiple rules with same name on before & after",
+				slog.Int("matches", len(matches)),
+			)
+			before = append(before, matches...)
+		}
 	}
 
 	for _, b := range before {
